@@ -75,13 +75,18 @@ CLAIMS = {
    text="632 corpus programs (harvested once from the repository's tests, covering every grammar construct), seeded typed composites and every .mec document are formatted; the text must re-parse to the same normalised tree, be a fixed point of formatting, and (for executable programs) evaluate to the same result and symbols. Differences are classified by the value-free path of the first differing node or by the construct responsible for an unparsable output.",
    note="The text formatter has many recorded emitter defects (multi-row matrices, tables, state machines, documents); composites are drawn mostly from constructs that round-trip so the remaining emitters stay monitored; failing documents are listed exactly.",
    ref="6/C08"),
+ "C09": dict(
+   technique="runtime monitoring: totality oracle over hostile inputs in subprocess workers (panic, abort, stack overflow and hang are observed as process events), a step clock and per-loop progress guard hooked into the parser (cfg mech_verif), determinism digests across replica workers, parser error reports checked against the input (ranges inside the text, format_error total); thorough adds an strace stage (no file or network syscall between the begin/end markers while parsing)",
+   text="Corpus programs, repository documents and byte/char/token-level mutations of them (truncation, splice, deletion, duplication, deep nesting, unicode, NUL and control bytes, unbalanced delimiters) are parsed in isolated workers: every input must return a tree or a report within the step budget, every parser loop iteration must consume input, two replica workers must produce identical digests, and every reported error range must lie inside the input and be renderable.",
+   note="The step budget is a logical clock (parser combinator entries), not wall time; a wall-clock watchdog firing is inconclusive. Three parser defects found this way are repaired in /repo (fix: commits); error reports that carry the default 0:0 range are a recorded finding.",
+   ref="6/C09"),
  "C10": dict(
    technique="runtime monitoring: differential oracle interpret(document) vs interpret(code only) on canonical symbol tables; per-namespace reference sessions compared with the sub-interpreters' symbol tables; static prose corpus swept by snippet x position and by ordered snippet pairs",
    text="Every prose snippet of a static 40-element corpus at every position of a program, every ordered pair of adjacent snippets, and seeded interleavings of generated programs with prose must leave the final variables exactly as the code alone leaves them; statements distributed over named fences must populate one isolated namespace per name (split fences share it), leak nothing into the unnamed program, and a failing statement inside a named fence must not stop the rest of the document.",
    note="The prose corpus is static and hand written from the Mechdown documentation; code blocks and prose are separated by blank lines.",
    ref="6/C10"),
  "C20": dict(
-   technique="runtime monitoring: independent reference expander (line-exact substitution, CommonMark-style fence rule, cycle = revisit on the current inclusion path) compared byte for byte with mech::read_mech_source_file on generated directory trees; exhaustive enumeration of include-edge subsets",
+   technique="runtime monitoring: independent reference expander (line-exact substitution, CommonMark-style fence rule, cycle = revisit on the current inclusion path) compared byte for byte with mech::read_mech_source_file on generated directory trees; exhaustive enumeration of include-edge subsets; thorough adds an strace stage (only read-only opens inside the tree, as many as the reference performs expansions)",
    text="For every subset of include edges over 3 files (and sampled / all subsets over 4 files) in 3 directories, with decorated include lines, fenced and brace look-alikes, repeated includes, missing targets, CRLF, missing trailing newline and a symlinked alias, loading the root must give exactly the reference expansion, report reachable cycles as circular includes, never report acyclic graphs as circular, and name missing files.",
    note="Trees are written under /verif/work/ and removed after each case; when a cycle and a missing file are both reachable either error is accepted.",
    ref="6/C20"),
